@@ -4,7 +4,7 @@ import importlib.util, json, os, sys
 VERIF = os.path.dirname(os.path.dirname(os.path.abspath(__file__)))
 ALL = [f"C{i:02d}" for i in range(1, 21)]
 NA = {
-    "C11": "unused",
+    "C11": "all clauses but the per-connection write path live inside the mio event loop run_transport (sockets, channel, token map): no function boundary a contract can name. DESIGN.md section 4 C11.",
     "C17": "label merging happens in tracing_subscriber::Layer callbacks driven by a foreign registry, with state in type-erased span extensions and a global object pool; no function with a nameable pre/post-state without modelling tracing-subscriber. DESIGN.md section 6.",
 }
 def load(prop):
